@@ -71,7 +71,45 @@ def fill(claim, na):
           'returned; TruncationError arithmetic. Numerical statements about spectra are not '
           'decided.', 'trusts python ast and sa/linform.py; a few idioms are matched on '
           'normalised source text (listed in sa/rules/c15.py)', 'C15')
-    for pid in ['C01', 'C02', 'C03', 'C04', 'C05', 'C06', 'C07', 'C09', 'C10', 'C11', 'C12',
+    claim('C02', 'forward typestate dataflow on the CFG for cached claims (Array._qdata_sorted, '
+          'LegCharge.sorted/bunched) + witness rules for literal True + coupled-update rules + '
+          'symbolic total-charge forms / sign-case enumeration (sa/charge.py)',
+          PARTIAL + 'Truthfulness of cached claims: every write to _qdata leaves the array DIRTY '
+          'until _qdata_sorted is re-stated (unless the last store was literal False); a literal '
+          'True needs a derivable witness (empty / one row / lexsort applied) or an axiom-table '
+          'entry; every rewrite of the charges of a copied leg re-states sorted and bunched '
+          '(tables of flag-preserving transforms, one reason each). Coupled updates: chinfo only '
+          'together with legs and qtotal; changed leg lists followed by _set_shape(). Total charge '
+          'of results = documented function of the operands (sum / negation / difference) as exact '
+          'polynomial identities; gauge_total_charge in all four direction cases. Block values and '
+          'the charge rule on data produced by arithmetic are not decided.',
+          'trusts python ast, the CFG, the axiom tables ORDER_PRESERVING / TRUE_CLAIMS / '
+          'KEEP_SORTED / KEEP_BUNCHED in sa/rules/c02.py (one reason per entry)', 'C02')
+    claim('C05', 'abstract interpretation of the factorization code over exact polynomials with '
+          'exhaustive enumeration of leg-direction cases (sa/charge.py) + pairing rules',
+          PARTIAL + 'Last sentence of the property: for _svd_worker, qr and orthogonal_columns the '
+          'legs of every constructed factor balance its total charge in every direction case '
+          '(s0, s1, inner_qconj in +-1; qtotal_Q given or None) under the hypothesis that the '
+          'input obeys the charge rule, so the factors are contractible and carry exactly the '
+          'requested total charges (52 obligations, exhaustive). Plus: hidden pipes are split '
+          'again on the recorded axes, overwrite_a only for fresh copies, factor labels pair '
+          'outer/inner, lq delegates to qr of the transpose, square-matrix routines reject '
+          'non-zero total charge. Residuals, isometry, triangularity, Moore-Penrose identities are '
+          'numerical and not decided.',
+          'make_valid treated as identity (equalities hold modulo the charge group); loops over '
+          'blocks are skipped (per-block numerics)', 'C05')
+    claim('C06', 'sign-case enumeration of direction algebra + exact-polynomial fusion rule + '
+          'table agreement of q_map column roles + leg-flag typestate',
+          PARTIAL + 'conj / flip_charges_qconj / LegPipe.conj / outer_conj change qconj, charges '
+          'and incoming legs as documented in both direction cases and preserve out = sum(in); '
+          'direction-dependent merges (extend, concatenate) negate iff directions differ; no '
+          'literal direction on derived legs; outgoing charges = sum self.qconj*l.qconj*l.charges '
+          'with one permutation applied to q_map, charges and block sizes; consumers of q_map use '
+          'the columns in their roles [start, stop, outgoing qindex, incoming qindices]; leg flags '
+          're-stated after charge rewrites. Bijectivity of q_map/_perm over all leg tuples is '
+          'combinatorial over data and not decided.',
+          'trusts python ast, sa/linform.py; documented effects table in sa/rules/c06.py', 'C06')
+    for pid in ['C01', 'C03', 'C04', 'C07', 'C09', 'C10', 'C11', 'C12',
                 'C13', 'C16', 'C19']:
         na(pid, 'static rule planned in DESIGN.md but not built yet (work in progress); not '
            'claimed until its check exists')
